@@ -107,23 +107,7 @@ func checkC04(r *Run) {
 			r.Check(a == b, "C04-R1", "slash/removed≡burned", P.InstrPos(bn), "record and pool are reduced by the same term "+a, "removeValidatorTokens takes "+a+" but burnStakedTokens burns "+b)
 		}
 	}
-	if f := r.fn(posK + "removeValidatorTokens"); f != nil {
-		if c := r.oneCall("C04-R1", "removeValidatorTokens", f, vT+"RemoveStakedTokens"); c != nil {
-			t := P.callTerm(c).String()
-			r.Check(t == vT+"RemoveStakedTokens(param:v, param:tokensToRemove)", "C04-R1", "removeValidatorTokens/removes-param", P.InstrPos(c), t, "removes "+t)
-		}
-		if c := r.oneCall("C04-R1", "removeValidatorTokens", f, posK+"SetValidator"); c != nil {
-			got := argTerm(P.callTerm(c), 2).String()
-			r.Check(got == vT+"RemoveStakedTokens(param:v, param:tokensToRemove)", "C04-R1", "removeValidatorTokens/persists", P.InstrPos(c), got, "persists "+got)
-			reach, _, path := ReachWithout(f, nil, isReturn, func(in ssa.Instruction) bool { return in == ssa.Instruction(c) }, nil)
-			r.Check(!reach, "C04-R1", "removeValidatorTokens/always-persists", P.InstrPos(c), "the reduced record is stored on every path", "a path returns the reduced validator without storing it (the pool is burned by the caller regardless): "+P.blockPathString(path))
-		}
-		for _, ret := range Returns(f) {
-			got := P.TermAt(ret.Results[0], ret).String()
-			r.Check(got == vT+"RemoveStakedTokens(param:v, param:tokensToRemove)", "C04-R1", "removeValidatorTokens/returns-updated", P.InstrPos(ret), got, "returns "+got)
-		}
-		r.callersExactly("C04-R1", "removeValidatorTokens", r.edgesTo(f), []string{posK + "slash"})
-	}
+	removeTokensPersists(r, "C04-R1")
 	// ForceValidatorUnstake
 	if f := r.fn(posK + "ForceValidatorUnstake"); f != nil {
 		bn := r.oneCall("C04-R1", "ForceValidatorUnstake", f, posK+"burnStakedTokens")
@@ -188,20 +172,7 @@ func checkC04(r *Run) {
 			r.Check(len(P.Guards(mv[0], 0)) == 0, "C04-R3", w.fn+"/unconditional-move", P.InstrPos(mv[0]), "unconditional", "pool movement is conditional: "+strings.Join(atomStrings(P.Guards(mv[0], 0)), " ; "))
 		}
 	}
-	if f := r.fn(posK + "ForceValidatorUnstake"); f != nil {
-		if sv := r.oneCall("C04-R3", "ForceValidatorUnstake", f, posK+"SetValidator"); sv != nil {
-			r.requireCut("C04-R3", "ForceValidatorUnstake/SetValidator", nil, sv, "burn-succeeded-or-nothing-to-burn",
-				`^isnil\(`+q(posK+"burnStakedTokens(param:k, param:ctx, param:validator.StakedTokens)")+`\)$`,
-				`^!\(types\.Int\)\.IsPositive\(param:validator\.StakedTokens\)$`)
-			// whenever there is something to burn it is burned: from the IsPositive edge the burn always follows
-			if bn := CallsIn(f, posK+"burnStakedTokens"); len(bn) == 1 {
-				r.mustFollowEdge("C04-R3", "ForceValidatorUnstake/positive-stake=>burned", f, `^\(types\.Int\)\.IsPositive\(param:validator\.StakedTokens\)$`, func(in ssa.Instruction) bool { return in == ssa.Instruction(bn[0]) }, nil, "burnStakedTokens")
-			}
-			for i, ret := range P.successReturns(f, 0, "nil") {
-				r.Check(Precedes(sv, ret), "C04-R3", fmt.Sprintf("ForceValidatorUnstake/success-return#%d/after-SetValidator", i), P.InstrPos(ret), "success only after the record was written", "ForceValidatorUnstake returns success without SetValidator")
-			}
-		}
-	}
+	forceUnstakeRules(r, "C04-R3")
 
 	// ------------------------------------------------------------------ R4
 	r.Rule("C04-R4", "status-partition agreement: the statuses whose stake is pool-backed are the same wherever they are enumerated — ModuleAccountInvariants counts Staked and Unstaking; pos.InitGenesis must fund the pool for the same set", 2)
@@ -308,4 +279,45 @@ func checkPoolPartition(r *Run) {
 	un := reachableFrom(inv, isite, `^\(1 == x/pos/exported\.ValidatorI\.GetStatus\(`) || reachableFrom(inv, isite, `^\(x/pos/exported\.ValidatorI\.GetStatus\(.*== 1\)`)
 	r.Check(st && un, "C04-R4", "ModuleAccountInvariants/partition", P.InstrPos(isite), "the invariant counts Staked(2) and Unstaking(1) stake as pool-backed",
 		fmt.Sprintf("the invariant's pool-backed partition changed: reachable from status==Staked: %v, from status==Unstaking: %v", st, un))
+}
+
+// forceUnstakeRules: a forced unstake burns exactly the remaining recorded stake, whenever there is any (C04-R3, C02-R10, C07-R9).
+func forceUnstakeRules(r *Run, rule string) {
+	P := r.P
+	if f := r.fn(posK + "ForceValidatorUnstake"); f != nil {
+		if sv := r.oneCall(rule, "ForceValidatorUnstake", f, posK+"SetValidator"); sv != nil {
+			r.requireCut(rule, "ForceValidatorUnstake/SetValidator", nil, sv, "burn-succeeded-or-nothing-to-burn",
+				`^isnil\(`+q(posK+"burnStakedTokens(param:k, param:ctx, param:validator.StakedTokens)")+`\)$`,
+				`^!\(types\.Int\)\.IsPositive\(param:validator\.StakedTokens\)$`)
+			// whenever there is something to burn it is burned: from the IsPositive edge the burn always follows
+			if bn := CallsIn(f, posK+"burnStakedTokens"); len(bn) == 1 {
+				r.mustFollowEdge(rule, "ForceValidatorUnstake/positive-stake=>burned", f, `^\(types\.Int\)\.IsPositive\(param:validator\.StakedTokens\)$`, func(in ssa.Instruction) bool { return in == ssa.Instruction(bn[0]) }, nil, "burnStakedTokens")
+			}
+			for i, ret := range P.successReturns(f, 0, "nil") {
+				r.Check(Precedes(sv, ret), rule, fmt.Sprintf("ForceValidatorUnstake/success-return#%d/after-SetValidator", i), P.InstrPos(ret), "success only after the record was written", "ForceValidatorUnstake returns success without SetValidator")
+			}
+		}
+	}
+}
+
+// removeTokensPersists: the reduced record is stored on every path of removeValidatorTokens (C04-R1, C07-R10).
+func removeTokensPersists(r *Run, rule string) {
+	P := r.P
+	if f := r.fn(posK + "removeValidatorTokens"); f != nil {
+		if c := r.oneCall(rule, "removeValidatorTokens", f, vT+"RemoveStakedTokens"); c != nil {
+			t := P.callTerm(c).String()
+			r.Check(t == vT+"RemoveStakedTokens(param:v, param:tokensToRemove)", rule, "removeValidatorTokens/removes-param", P.InstrPos(c), t, "removes "+t)
+		}
+		if c := r.oneCall(rule, "removeValidatorTokens", f, posK+"SetValidator"); c != nil {
+			got := argTerm(P.callTerm(c), 2).String()
+			r.Check(got == vT+"RemoveStakedTokens(param:v, param:tokensToRemove)", rule, "removeValidatorTokens/persists", P.InstrPos(c), got, "persists "+got)
+			reach, _, path := ReachWithout(f, nil, isReturn, func(in ssa.Instruction) bool { return in == ssa.Instruction(c) }, nil)
+			r.Check(!reach, rule, "removeValidatorTokens/always-persists", P.InstrPos(c), "the reduced record is stored on every path", "a path returns the reduced validator without storing it (the pool is burned by the caller regardless): "+P.blockPathString(path))
+		}
+		for _, ret := range Returns(f) {
+			got := P.TermAt(ret.Results[0], ret).String()
+			r.Check(got == vT+"RemoveStakedTokens(param:v, param:tokensToRemove)", rule, "removeValidatorTokens/returns-updated", P.InstrPos(ret), got, "returns "+got)
+		}
+		r.callersExactly(rule, "removeValidatorTokens", r.edgesTo(f), []string{posK + "slash"})
+	}
 }
